@@ -93,13 +93,13 @@ package coregex
 
 //@ func Compile
 //@   props C09 C07
-//@   ensures result1 == nil ==> result0 != nil && !result0.longest && !result0.posix && result0.engine != nil && !result0.engine.longest && result0.engine.pikevm != nil && parses(pattern, 212) && fresh(result0) && fresh(result0.engine) && sameslice(result0.pattern, pattern)
+//@   ensures result1 == nil ==> result0 != nil && !result0.longest && !result0.posix && result0.engine != nil && !result0.engine.longest && result0.engine.pikevm != nil && parses(pattern, 212) && fresh(result0) && fresh(result0.engine) && sameslice(result0.pattern, pattern) && fresh(result0.engine.pikevm) && (result0.engine.boundedBacktracker != nil ==> fresh(result0.engine.boundedBacktracker))
 //@   ensures !parses(pattern, 212) ==> result1 != nil
 
 // CompilePOSIX must accept exactly what the POSIX (flags 0) parser accepts and switch to leftmost-longest
 //@ func CompilePOSIX
 //@   props C09 C10 C07
-//@   ensures result1 == nil ==> result0 != nil && result0.longest && result0.posix && result0.engine != nil && result0.engine.longest && result0.engine.pikevm != nil && parses(pattern, 0) && fresh(result0) && fresh(result0.engine) && sameslice(result0.pattern, pattern)
+//@   ensures result1 == nil ==> result0 != nil && result0.longest && result0.posix && result0.engine != nil && result0.engine.longest && result0.engine.pikevm != nil && parses(pattern, 0) && fresh(result0) && fresh(result0.engine) && sameslice(result0.pattern, pattern) && fresh(result0.engine.pikevm) && (result0.engine.boundedBacktracker != nil ==> fresh(result0.engine.boundedBacktracker))
 //@   ensures !parses(pattern, 0) ==> result1 != nil
 
 //@ func (*Regex).Longest
